@@ -115,3 +115,19 @@ def classify_c08(text, fphase, dphase, where, rc, out, err, probes):
     if fphase == 'before-assert' and rc == 128 and out == 'HARD_ERROR\n' and 'In [before-assert]' in err:
         return 'KF-C08-SKIPPED-DEF'
     return None
+
+
+def classify_c10(place, stdin_kind, errs, stdin_pair, ident, want_ident):
+    """KF-C10-ACT-HEREDOC.  Predicate: the program is written directly in [act] (command-line actor) and its stdin is a here-document whose body has
+    lines that are empty, blank or start with `#`.  Defect model: the source of [act] is stripped of every empty / blank / comment line BEFORE the
+    actor parses it, also inside the here-document; the process gets the denoted stdin without those lines.  Nothing else is wrong: the stdin
+    mismatch is the only error and the observed text is exactly the denoted one minus those lines."""
+    if not is_known('KF-C10-ACT-HEREDOC') or place != 'act' or stdin_kind != 'here-odd' or stdin_pair is None:
+        return None
+    if len(errs) != 1 or ident != want_ident:
+        return None
+    got, want = stdin_pair
+    import re
+    lines = re.findall(r'[^\n]*\n|[^\n]+', want)
+    stripped = ''.join(l for l in lines if l.strip() != '' and not l.lstrip().startswith('#'))
+    return 'KF-C10-ACT-HEREDOC' if got == stripped else None
